@@ -82,13 +82,16 @@ CHECKS["C21"] = dict(
    note="Trusted: Coq kernel; tools/py2coq.py; Model/SI.v hand-written; sweep oracle = member enumeration from the definition. "
         "Most of this property is decided by testing, not proof; the known-findings list is large (known/C21.txt.gz).")
 CHECKS["C22"] = dict(
-   text="Machine-checked proof (Coq): cardinality equals the number of members for every width (C22_cardinality) and the executable member "
-        "list is the member set (C22_members). Union/least_upper_bound/pseudo_join, intersection, widen, eval, min, max and solution are "
-        "NOT modelled: they are swept directly on the real code (all intervals and pairs of width 1-2, 1-3 thorough, samples above); "
+   text="Machine-checked proof (Coq): cardinality equals the number of members for every width (C22_cardinality), the executable member "
+        "list is the member set (C22_members), and the union of two intervals (union / _union / least_upper_bound of two = pseudo_join "
+        "with all its cases: containment either way, TOP operands, covering the circle, overlap, disjoint with the choice of the smaller "
+        "join) contains every member of both operands for every width and all operands (C22_union); the union model is compared "
+        "result-for-result with the real code on ~10000 pairs per run. least_upper_bound of three or more, intersection, widen, eval, "
+        "min, max and solution are NOT modelled: they are swept directly on the real code (all intervals and pairs of width 1-2, 1-3 thorough, samples above); "
         "widen, intersection, solution, signed eval and min/max on intervals with a non-member upper bound fail on the pinned tree and are "
         "known findings identified by (operation, input).",
-   design="5/C22", technique="Coq proof of cardinality; exhaustive small-width sweep of the real joins/meets/queries",
-   note="Trusted: Coq kernel; Model/SI.v; sweep oracle = member enumeration from the definition. Mostly testing, not proof.")
+   design="5/C22", technique="Coq proofs of cardinality and of the soundness of the two-interval union; correspondence by extraction; exhaustive small-width sweep of the real joins/meets/queries",
+   note="Trusted: Coq kernel; Model/SI.v, Model/SIUnion.v; sweep oracle = member enumeration from the definition.")
 
 CHECKS["C23"] = dict(
    text="Machine-checked proof (Coq), generic in the element domain: an operation applied to every (pair of) member(s) of sets of abstract "
@@ -108,7 +111,8 @@ CHECKS["C24"] = dict(
         "respects the variables' annotations: bottom-up abstract evaluation with BackendVSA's If rule contains the expression's value "
         "whenever each operator's transfer function and the join are sound and has_true/has_false are complete (C24_aeval), also after "
         "ITE excavation as in BackendVSA.convert (C24_convert, using C08's excavation theorem), and for the executable table-driven "
-        "instance (C24_table). Tie: the real BackendVSA.convert runs with its operator applications recorded (run-time wrapper around "
+        "instance (C24_table); the hypotheses are dischargeable: table entries for + and - by C21's theorems (C24_add_entry, "
+        "C24_sub_entry) and the If-join by C22's union theorem (C24_union_join). Tie: the real BackendVSA.convert runs with its operator applications recorded (run-time wrapper around "
         "_call); the extracted model replays the evaluation of the excavated tree from that table and must reach the same abstract value. "
         "Search: every assignment inside the intervals is enumerated with the extracted SMT-LIB evaluator (1-3 variables, width 2-4); a "
         "missing value is located at the sub-expression where soundness is lost; if that node carries exactly the interval-level result, "
